@@ -1,7 +1,7 @@
 """C09 - the bipartite matching routine returns a maximum matching."""
 import itertools, json, os
 from harness import flowlib
-from harness.common import pmap, lean_query, guard, VERIF
+from harness.common import pmap, lean_query, guard, VERIF, safe_judge
 from harness.c01 import chunks
 
 LEVEL = "proof"
@@ -45,6 +45,7 @@ def gen_exhaustive():
                     yield {"X": X, "Y": Y, "adj": adj, "undirected": und}
 
 
+@safe_judge
 def judge(R, b, res, mcm_ans, cert_ans, tag):
     if "hang" in res:
         R.violation("property_violation", "termination", ENTRY, b, impl_output="no result within deadline", oracle="non-termination")
